@@ -1,3 +1,265 @@
-//! C13 bounded native checks (not written yet)
+//! C13 bounded: Mesh::section / Mesh::split on the REAL code (parry's plane intersection, chained_indices,
+//! Curve3::from_points included) against a brute-force oracle.
+//! Meshes (watertight, convex): box 2x3x4, prism (triangle (0,0),(4,0),(0,3) extruded by 2), tetrahedron with legs 4;
+//! poses: identity, translation (1,-2,3), quarter turn about z + translation, third turn about (1,1,1).  Planes: 16
+//! normals (6 axis-aligned, the 4 sign patterns of (1,1,1), (1,2,2)/3, (2,-3,6)/7, (1,-1,0.2), (-3,1,-2), (0,1,1),
+//! (1,0,-2)) x offsets: 0.5 outside either end of the mesh's extent along the normal (miss), odd sixteenths of the
+//! extent, 0.25 and 2^-12 inside either end (single corners cut off: 3-segment loops, segments shorter than 1e-3).
+//! Planes with a mesh vertex closer than 1e-5 are skipped ("through vertices avoided by a margin").
+//! Only watertight meshes are sectioned in the main loop: parry 0.18's intersection_with_local_plane does not terminate
+//! on an open chain (one such input is run LAST, on a helper thread under a 2 s watchdog, under its own clause name).
+//! Oracle: every face is classified by the signs of its vertex distances; a face with vertices on both sides yields one
+//! crossing segment between the two crossing points of its cut edges; the cross-section of a convex solid is the convex
+//! polygon through all edge crossing points (perimeter by angular sort about the centroid).
 use super::Report;
-pub fn run() -> Option<Report> { None }
+use crate::geom3::{Curve3, Iso3, Mesh, Plane3, Point3, UnitVec3, Vector3};
+use parry3d_f64::na::{Translation3, UnitQuaternion};
+use parry3d_f64::query::SplitResult;
+use std::f64::consts::PI;
+
+const EPS: f64 = 1e-9;
+fn eq(a: f64, b: f64) -> bool { (a - b).abs() <= EPS * (1.0 + a.abs().max(b.abs())) }
+fn peq(a: &Point3, b: &Point3) -> bool { (a - b).norm() <= EPS * (1.0 + a.coords.norm().max(b.coords.norm())) }
+
+fn seg_closest(a: &Point3, b: &Point3, q: &Point3) -> Point3 {
+    let ab = b - a;
+    let l2 = ab.norm_squared();
+    if l2 == 0.0 { return *a; }
+    a + ab * ((q - a).dot(&ab) / l2).clamp(0.0, 1.0)
+}
+fn tri_closest(a: &Point3, b: &Point3, c: &Point3, p: &Point3) -> Point3 {
+    let n = (b - a).cross(&(c - a));
+    let pp = p - n * ((p - a).dot(&n) / n.norm_squared());
+    let s0 = (b - a).cross(&(pp - a)).dot(&n);
+    let s1 = (c - b).cross(&(pp - b)).dot(&n);
+    let s2 = (a - c).cross(&(pp - c)).dot(&n);
+    if s0 >= 0.0 && s1 >= 0.0 && s2 >= 0.0 { return pp; }
+    let mut best = seg_closest(a, b, p);
+    for (u, v) in [(b, c), (c, a)] {
+        let x = seg_closest(u, v, p);
+        if (p - x).norm() < (p - best).norm() { best = x; }
+    }
+    best
+}
+fn area(v: &[Point3], f: &[[u32; 3]]) -> f64 {
+    f.iter().map(|t| (v[t[1] as usize] - v[t[0] as usize]).cross(&(v[t[2] as usize] - v[t[0] as usize])).norm() * 0.5).sum()
+}
+
+struct Oracle {
+    /// per crossed face: the two crossing points
+    segs: Vec<(usize, Point3, Point3)>,
+    /// one crossing point per cut mesh edge
+    pts: Vec<Point3>,
+    perimeter: f64,
+}
+fn oracle(v: &[Point3], f: &[[u32; 3]], n: &Vector3, d: f64) -> Oracle {
+    let sd: Vec<f64> = v.iter().map(|p| n.dot(&p.coords) - d).collect();
+    let cross = |a: usize, b: usize| -> Point3 { let (a, b) = if a < b { (a, b) } else { (b, a) }; v[a] + (v[b] - v[a]) * (sd[a] / (sd[a] - sd[b])) };
+    let mut segs = vec![];
+    let mut pts: Vec<Point3> = vec![];
+    let mut seen: Vec<(usize, usize)> = vec![];
+    for (k, t) in f.iter().enumerate() {
+        let mut cp = vec![];
+        for e in 0..3 {
+            let (a, b) = (t[e] as usize, t[(e + 1) % 3] as usize);
+            if (sd[a] < 0.0) != (sd[b] < 0.0) {
+                cp.push(cross(a, b));
+                let key = (a.min(b), a.max(b));
+                if !seen.contains(&key) { seen.push(key); pts.push(cross(a, b)); }
+            }
+        }
+        if cp.len() == 2 { segs.push((k, cp[0], cp[1])); }
+    }
+    // convex cross-section: sort the crossing points by angle about their centroid, in a basis of the plane
+    let mut perimeter = 0.0;
+    if pts.len() >= 3 {
+        let c = pts.iter().fold(Vector3::zeros(), |s, p| s + p.coords) / pts.len() as f64;
+        let helper = if n.x.abs() <= n.y.abs() && n.x.abs() <= n.z.abs() { Vector3::x() } else if n.y.abs() <= n.z.abs() { Vector3::y() } else { Vector3::z() };
+        let u = n.cross(&helper).normalize();
+        let w = n.cross(&u);
+        let mut ang: Vec<(f64, Point3)> = pts.iter().map(|p| { let r = p.coords - c; (r.dot(&w).atan2(r.dot(&u)), *p) }).collect();
+        ang.sort_by(|a, b| a.0.partial_cmp(&b.0).unwrap());
+        for i in 0..ang.len() { perimeter += (ang[(i + 1) % ang.len()].1 - ang[i].1).norm(); }
+    }
+    Oracle { segs, pts, perimeter }
+}
+
+fn moved(m: &Mesh, t: &Iso3) -> Mesh { let mut c = m.clone(); c.transform(t); c }
+/// the plane moved by t, written out (not Plane3::transform_by)
+fn moved_plane(n: &Vector3, d: f64, t: &Iso3) -> (Vector3, f64) { let n2 = t.rotation * n; (n2, d + n2.dot(&t.translation.vector)) }
+fn plane(n: &Vector3, d: f64) -> Plane3 { Plane3::new(UnitVec3::new_unchecked(*n), d) }
+
+fn check_section(r: &mut Report, name: &str, m: &Mesh, n: &Vector3, d: f64, commute: &[(&str, Iso3)]) {
+    let v = m.vertices().to_vec();
+    let f = m.faces().to_vec();
+    let desc = || format!("{} plane normal ({:?}, {:?}, {:?}) d {:?}", name, n.x, n.y, n.z, d);
+    let o = oracle(&v, &f, n, d);
+    r.case();
+    let curves: Vec<Curve3> = match m.section(&plane(n, d), None) { Ok(c) => c, Err(_) => { r.check(false, "section: returns Ok", desc); return; } };
+    if o.segs.is_empty() {
+        r.check(curves.is_empty(), "section: a plane that misses the mesh yields no curve", desc);
+    } else {
+        r.check(curves.len() == 1, "section: a convex solid crossed by the plane yields exactly one loop", desc);
+    }
+    let mut used = vec![0usize; f.len()];
+    let mut nseg = 0;
+    for c in curves.iter() {
+        let p = c.points();
+        for x in p.iter() {
+            r.check((n.dot(&x.coords) - d).abs() <= EPS * (1.0 + d.abs()), "section: every vertex lies on the plane", desc);
+            let on = f.iter().any(|t| (x - tri_closest(&v[t[0] as usize], &v[t[1] as usize], &v[t[2] as usize], x)).norm() <= EPS * (1.0 + x.coords.norm()));
+            r.check(on, "section: every vertex lies on the mesh surface", desc);
+            r.check(o.pts.iter().any(|y| peq(x, y)), "section: every vertex is the crossing point of a mesh edge with the plane", desc);
+        }
+        for i in 0..p.len() - 1 {
+            nseg += 1;
+            let hit: Vec<usize> = o.segs.iter().filter(|(_, a, b)| (peq(a, &p[i]) && peq(b, &p[i + 1])) || (peq(b, &p[i]) && peq(a, &p[i + 1]))).map(|(k, _, _)| *k).collect();
+            r.check(hit.len() == 1, "section: consecutive vertices are joined across one face (they are the two crossing points of one crossed face)", desc);
+            for k in hit { used[k] += 1; }
+        }
+        r.check(peq(&p[0], &p[p.len() - 1]) && p.len() >= 4, "section: every section curve of a watertight mesh is closed", desc);
+    }
+    r.check(o.segs.iter().all(|(k, _, _)| used[*k] == 1) && nseg == o.segs.len(), "section: each plane-face crossing segment is used exactly once", desc);
+    if curves.len() == 1 {
+        r.check(eq(curves[0].length(), o.perimeter), "section: the loop of a convex solid has the analytic perimeter of the cross-section", desc);
+    }
+    // commutation with rigid motion of mesh and plane together
+    for (tn, t) in commute.iter() {
+        let dc = || format!("{} moved by {}", desc(), tn);
+        let (n2, d2) = moved_plane(n, d, t);
+        let c2 = match moved(m, t).section(&plane(&n2, d2), None) { Ok(c) => c, Err(_) => { r.check(false, "section: returns Ok", dc); continue; } };
+        let mut same = c2.len() == curves.len();
+        if same {
+            for (a, b) in curves.iter().zip(c2.iter()) {
+                same &= a.points().len() == b.points().len() && eq(a.length(), b.length());
+                same &= a.points().iter().all(|x| b.points().iter().any(|y| peq(&(t * x), y)));
+                same &= b.points().iter().all(|y| a.points().iter().any(|x| peq(&(t * x), y)));
+            }
+        }
+        r.check(same, "section: commutes with rigid motion of mesh and plane together (same loops, vertex for vertex)", dc);
+    }
+}
+
+fn check_split(r: &mut Report, name: &str, m: &Mesh, n: &Vector3, d: f64) {
+    let v = m.vertices().to_vec();
+    let f = m.faces().to_vec();
+    let desc = || format!("{} plane normal ({:?}, {:?}, {:?}) d {:?}", name, n.x, n.y, n.z, d);
+    let sd: Vec<f64> = v.iter().map(|p| n.dot(&p.coords) - d).collect();
+    let (any_neg, any_pos) = (sd.iter().any(|s| *s < 0.0), sd.iter().any(|s| *s > 0.0));
+    r.case();
+    match m.split(&plane(n, d)) {
+        SplitResult::Positive => r.check(!any_neg, "split: reports Positive only when the mesh is wholly on the positive side of the plane", desc),
+        SplitResult::Negative => r.check(!any_pos, "split: reports Negative only when the mesh is wholly on the negative side of the plane", desc),
+        SplitResult::Pair(a, b) => {
+            r.check(any_neg && any_pos, "split: yields two meshes only when the plane crosses the mesh", desc);
+            let tol = EPS * (1.0 + d.abs());
+            r.check(a.vertices().iter().all(|p| n.dot(&p.coords) - d <= tol), "split: the first mesh lies on the negative side of the plane", desc);
+            r.check(b.vertices().iter().all(|p| n.dot(&p.coords) - d >= -tol), "split: the second mesh lies on the positive side of the plane", desc);
+            let (aa, ab, am) = (area(a.vertices(), a.faces()), area(b.vertices(), b.faces()), area(&v, &f));
+            r.check(eq(aa + ab, am) && aa > 0.0 && ab > 0.0, "split: the areas of the two meshes sum to the original area", desc);
+            // the negative part's area, independently: each face contributes its part below the plane
+            let mut neg_area = 0.0;
+            for t in f.iter() {
+                let idx = [t[0] as usize, t[1] as usize, t[2] as usize];
+                let mut poly: Vec<Point3> = vec![];
+                for e in 0..3 {
+                    let (i, j) = (idx[e], idx[(e + 1) % 3]);
+                    if sd[i] < 0.0 { poly.push(v[i]); }
+                    if (sd[i] < 0.0) != (sd[j] < 0.0) { poly.push(v[i] + (v[j] - v[i]) * (sd[i] / (sd[i] - sd[j]))); }
+                }
+                for k in 1..poly.len().max(2) - 1 { neg_area += (poly[k] - poly[0]).cross(&(poly[k + 1] - poly[0])).norm() * 0.5; }
+            }
+            r.check(eq(aa, neg_area), "split: the negative part has the area of the mesh below the plane", desc);
+        }
+    }
+}
+
+fn base_meshes() -> Vec<(&'static str, Mesh)> {
+    let p = |x: f64, y: f64, z: f64| Point3::new(x, y, z);
+    let prism = Mesh::new(
+        vec![p(0.0, 0.0, 0.0), p(4.0, 0.0, 0.0), p(0.0, 3.0, 0.0), p(0.0, 0.0, 2.0), p(4.0, 0.0, 2.0), p(0.0, 3.0, 2.0)],
+        vec![[0, 2, 1], [3, 4, 5], [0, 1, 4], [0, 4, 3], [1, 2, 5], [1, 5, 4], [2, 0, 3], [2, 3, 5]], true);
+    let tet = Mesh::new(vec![p(0.0, 0.0, 0.0), p(4.0, 0.0, 0.0), p(0.0, 4.0, 0.0), p(0.0, 0.0, 4.0)], vec![[0, 2, 1], [0, 1, 3], [0, 3, 2], [1, 2, 3]], true);
+    vec![("box 2x3x4", Mesh::create_box(2.0, 3.0, 4.0, true)), ("prism (0,0),(4,0),(0,3) x 2", prism), ("tetrahedron legs 4", tet)]
+}
+
+pub fn run() -> Option<Report> {
+    let mut r = Report::new("watertight convex meshes: box 2x3x4, triangular prism, tetrahedron, in 4 poses (identity, translation, quarter turn about z + translation, third turn about (1,1,1)); planes: 16 normals (axis-aligned, all sign patterns of (1,1,1), (1,2,2)/3, (2,-3,6)/7, mixed-sign oblique ones) x offsets missing the mesh by 0.5, odd sixteenths of the extent, 0.25 and 2^-12 inside either end (single corners cut off, segments shorter than 1e-3); planes with a mesh vertex closer than 1e-5 skipped; section additionally compared after 4 further rigid motions (cube group + integer translations); split additionally on an open two-triangle strip; tolerance 1e-9 relative");
+    let q = |ax: Vector3, ang: f64| UnitQuaternion::from_axis_angle(&UnitVec3::new_normalize(ax), ang);
+    let poses: Vec<(&str, Iso3)> = vec![
+        ("identity", Iso3::identity()),
+        ("+(1,-2,3)", Iso3::translation(1.0, -2.0, 3.0)),
+        ("Rz90 then +(-4,0.5,2)", Iso3::from_parts(Translation3::new(-4.0, 0.5, 2.0), q(Vector3::z(), PI / 2.0))),
+        ("R(1,1,1)120", Iso3::from_parts(Translation3::new(0.0, 0.0, 0.0), q(Vector3::new(1.0, 1.0, 1.0), 2.0 * PI / 3.0))),
+    ];
+    let commute: Vec<(&str, Iso3)> = vec![
+        ("Rx90", Iso3::from_parts(Translation3::new(0.0, 0.0, 0.0), q(Vector3::x(), PI / 2.0))),
+        ("Ry90 then +(1,-2,3)", Iso3::from_parts(Translation3::new(1.0, -2.0, 3.0), q(Vector3::y(), PI / 2.0))),
+        ("Rz180 then +(0,5,0)", Iso3::from_parts(Translation3::new(0.0, 5.0, 0.0), q(Vector3::z(), PI))),
+        ("R(1,1,1)240 then +(-3,0,7)", Iso3::from_parts(Translation3::new(-3.0, 0.0, 7.0), q(Vector3::new(1.0, 1.0, 1.0), 4.0 * PI / 3.0))),
+    ];
+    let nv = |x: f64, y: f64, z: f64| Vector3::new(x, y, z).normalize();
+    let normals = vec![
+        nv(1.0, 0.0, 0.0), nv(-1.0, 0.0, 0.0), nv(0.0, 1.0, 0.0), nv(0.0, -1.0, 0.0), nv(0.0, 0.0, 1.0), nv(0.0, 0.0, -1.0),
+        nv(1.0, 1.0, 1.0), nv(1.0, -1.0, 1.0), nv(-1.0, 1.0, 1.0), nv(1.0, 1.0, -1.0),
+        Vector3::new(1.0, 2.0, 2.0) / 3.0, Vector3::new(2.0, -3.0, 6.0) / 7.0,
+        nv(1.0, -1.0, 0.2), nv(-3.0, 1.0, -2.0), nv(0.0, 1.0, 1.0), nv(1.0, 0.0, -2.0),
+    ];
+    let thin = 1.0 / 4096.0;
+    for (mname, base) in base_meshes().iter() {
+        for (pname, pose) in poses.iter() {
+            let m = moved(base, pose);
+            let name = format!("{} in pose {}", mname, pname);
+            for n in normals.iter() {
+                let s: Vec<f64> = m.vertices().iter().map(|p| n.dot(&p.coords)).collect();
+                let lo = s.iter().cloned().fold(f64::INFINITY, f64::min);
+                let hi = s.iter().cloned().fold(f64::NEG_INFINITY, f64::max);
+                let mut offs = vec![lo - 0.5, hi + 0.5, lo + 0.25, hi - 0.25, lo + thin, hi - thin];
+                for k in [1.0, 3.0, 5.0, 7.0, 9.0, 11.0, 13.0, 15.0] { offs.push(lo + (hi - lo) * k / 16.0); }
+                for d in offs {
+                    if s.iter().any(|x| (x - d).abs() < 1e-5) { continue; }
+                    check_section(&mut r, &name, &m, n, d, &commute);
+                    check_split(&mut r, &name, &m, n, d);
+                }
+            }
+        }
+    }
+    // split of an open mesh (section is NOT run on open meshes, see the header)
+    let p = |x: f64, y: f64, z: f64| Point3::new(x, y, z);
+    let strip = Mesh::new(vec![p(0.0, 0.0, 0.0), p(2.0, 0.0, 0.0), p(0.0, 2.0, 0.0), p(2.0, 2.0, 1.0)], vec![[0, 1, 2], [1, 3, 2]], false);
+    for n in normals.iter() {
+        for d in [-3.0, -0.75, -0.3, 0.3, 0.45, 0.75, 1.1, 1.6, 4.0] {
+            if strip.vertices().iter().any(|x| (n.dot(&x.coords) - d).abs() < 1e-5) { continue; }
+            check_split(&mut r, "open two-triangle strip", &strip, n, d);
+        }
+    }
+    open_mesh_watchdog(&mut r);
+    Some(r)
+}
+
+/// LAST clause (own name): Mesh::section on an OPEN mesh crossed by the plane.  parry 0.18's
+/// `TriMesh::intersection_with_local_plane` walks each chain of crossing segments "until the loop closes"; on an open
+/// chain the walk reaches the end vertex, finds no unvisited neighbour and never leaves the `while` loop (it pushes the
+/// same segment until memory is exhausted).  The call is made on a helper thread; the watchdog waits 2 s (the call takes
+/// microseconds when it returns) and the process exits right after the report is printed.
+fn open_mesh_watchdog(r: &mut Report) {
+    use std::sync::mpsc;
+    use std::time::Duration;
+    let (tx, rx) = mpsc::channel();
+    std::thread::spawn(move || {
+        let p = |x: f64, y: f64, z: f64| Point3::new(x, y, z);
+        let square = Mesh::new(vec![p(0.0, 0.0, 0.0), p(2.0, 0.0, 0.0), p(0.0, 2.0, 0.0), p(2.0, 2.0, 0.0)], vec![[0, 1, 2], [1, 3, 2]], false);
+        let out: Vec<(usize, f64)> = match square.section(&Plane3::new(Vector3::x_axis(), 0.75), None) {
+            Ok(c) => c.iter().map(|x| (x.points().len(), x.length())).collect(),
+            Err(_) => vec![(0, -1.0)],
+        };
+        let _ = tx.send(out);
+    });
+    let got = rx.recv_timeout(Duration::from_secs(2));
+    let desc = || "flat square (0,0,0),(2,0,0),(0,2,0),(2,2,0) of two triangles [0,1,2],[1,3,2] (open mesh), plane x = 0.75".to_string();
+    r.case();
+    r.check(got.is_ok(), "[parry 0.18 intersection_with_local_plane, open chain] section of an open mesh crossed by the plane returns (watchdog 2 s)", desc);
+    if let Ok(c) = got {
+        r.check(c.len() == 1 && c[0].0 == 3 && eq(c[0].1, 2.0), "section of an open flat square: one open curve through the two crossed faces, length 2", desc);
+    }
+}
